@@ -32,7 +32,9 @@ ASSUMPTIONS = ["the reference writer follows verde's documented header conventio
                "for the all-blank file (header range undefined) both a correct load and a refusal are accepted"]
 
 VALS = [-7.5, 0.0, 1.0, 1.0, 2.5e10, -1e-3, 3.0, 4.25, -2.0, 17.0, 1e-30, 6.0]
-REGIONS = [[2.0, 2000.0, 1.0, 1000.0], [-10.0, -9.5, -0.25, 7.75], [0.0, 1.0, 100.0, 101.5]]
+REGIONS = [[2.0, 2000.0, 1.0, 1000.0], [-10.0, -9.5, -0.25, 7.75], [0.0, 1.0, 100.0, 101.5],
+           # projected coordinates: extents of 1e-6 ... 1e-9 of the coordinate values (seed C19-10: a relative "zero width" test)
+           [7500000.0, 7500020.0, 500000.0, 500004.0], [1.0e6, 1.0e6 + 0.003, -1.0e6 - 0.002, -1.0e6]]
 SENT = ["1.70141e38", "1.71e38", "3e38"]
 BIG_OK = 1.70140e38
 NFMT = 7
